@@ -31,6 +31,7 @@ import (
 type tileFeature struct {
 	Kind  string            `json:"kind"`
 	Rings [][][2]int        `json:"rings"`
+	Depth []int             `json:"depth"` // polygon: nesting depth per ring (absent: ring 0 outer, the others holes)
 	Tags  map[string]string `json:"tags"`
 	FID   uint64            `json:"fid"`
 }
@@ -241,11 +242,15 @@ func runTile(data json.RawMessage) vh.Verdict {
 					if src < 0 {
 						return vh.Fail("harness:projection-precondition", "loop %v is not one of the case's rings %v", ring, f.Rings)
 					}
-					if (src > 0) != loop.IsHole() {
+					isHole := src > 0
+					if len(f.Depth) == len(f.Rings) {
+						isHole = f.Depth[src]%2 == 1 // a ring inside a hole (depth 2) is an exterior ring again
+					}
+					if isHole != loop.IsHole() {
 						return vh.Fail("harness:hole-precondition", "ring %d: IsHole=%v", src, loop.IsHole())
 					}
 					w.rings = append(w.rings, ring)
-					w.hole = append(w.hole, src > 0)
+					w.hole = append(w.hole, isHole)
 				}
 			default:
 				return vh.Fail("harness-json", "unknown kind %q", f.Kind)
